@@ -40,7 +40,7 @@ func c04Hooks(level int) limHooks {
 func runC04(c *Ctx) {
 	level := c.Pick(0, 1)
 	depth := c.Pick(5, 7)
-	for _, cfg := range limGrid(level) {
+	for _, cfg := range append(limGrid(level), limGridVariants()...) {
 		for _, w := range []string{"", "windowed", "traced"} {
 			cfg := cfg
 			cfg.wrapper = w
